@@ -66,13 +66,13 @@ def limit_df(df, fs, start=None, stop=None, reset_indices=True):
 
     # Shift sample indices to start at 0
     if reset_indices:
-        df['sample_last_' + side_e] = df['sample_last_' + side_e] - int(fs * start)
-        df['sample_next_' + side_e] = df['sample_next_' + side_e] - int(fs * start)
-        df['sample_' + center_e] = df['sample_' + center_e] - int(fs * start)
-        df['sample_zerox_rise'] = df['sample_zerox_rise'] - int(fs * start)
-        df['sample_zerox_decay'] = df['sample_zerox_decay'] - int(fs * start)
+        df['sample_last_' + side_e] = df['sample_last_' + side_e] - int(np.round(fs * start))
+        df['sample_next_' + side_e] = df['sample_next_' + side_e] - int(np.round(fs * start))
+        df['sample_' + center_e] = df['sample_' + center_e] - int(np.round(fs * start))
+        df['sample_zerox_rise'] = df['sample_zerox_rise'] - int(np.round(fs * start))
+        df['sample_zerox_decay'] = df['sample_zerox_decay'] - int(np.round(fs * start))
         last_zerox = 'sample_last_zerox_decay' if center_e == 'peak' else 'sample_last_zerox_rise'
-        df[last_zerox] = df[last_zerox] - int(fs * start)
+        df[last_zerox] = df[last_zerox] - int(np.round(fs * start))
 
     return df
 
